@@ -71,6 +71,34 @@ theorem force_agree (hr : KeysNodup root) (fuel : Nat) :
 
 variable {frc frc0 : Closure → MSt → Res PVal × MSt}
 
+/-- the loop at a dethunk site agrees when the forcing functions do -/
+theorem forceLoop_agree (hf : FrcAgree c pv rootType root frc frc0) :
+    ∀ (n : Nat) (v : PVal) (st st0 : MSt), OK v → StRel st st0 → Valid c pv rootType root st.memo →
+    Agree c pv rootType root (fun v => OK v) (forceLoop frc n v st) (forceLoop frc0 n v st0)
+  | 0, v, st, st0, _, h, hv => by simp only [forceLoop]; exact agree_fuelOut h hv
+  | n + 1, .leaf j, st, st0, hok, h, hv => by simp only [forceLoop]; exact agree_ok h hv hok
+  | n + 1, .list xs, st, st0, hok, h, hv => by simp only [forceLoop]; exact agree_ok h hv hok
+  | n + 1, .obj fs, st, st0, hok, h, hv => by simp only [forceLoop]; exact agree_ok h hv hok
+  | n + 1, .deferred cl, st, st0, hok, h, hv => by
+    simp only [forceLoop]
+    have ha := hf cl st st0 (allCl_deferred.1 hok) h hv
+    generalize hM : frc cl st = xM at ha ⊢
+    generalize h0 : frc0 cl st0 = x0 at ha ⊢
+    obtain ⟨r1, st1⟩ := xM
+    obtain ⟨r1', st1'⟩ := x0
+    obtain ⟨hr1, hst, hval, hgood⟩ := ha
+    simp only at hr1 hst hval hgood
+    subst hr1
+    cases r1 with
+    | ok x => exact forceLoop_agree hf n x st1 st1' (hgood x rfl) hst hval
+    | fail => exact agree_fail hst hval
+    | fuelOut => exact agree_fuelOut hst hval
+
+theorem forceAll_agree (hr : KeysNodup root) (fuel : Nat) :
+    FrcAgree c pv rootType root (forceAll c altM fuel) (forceAll c alt0 fuel) := by
+  intro cl st st0 hcl h hv
+  exact forceLoop_agree (force_agree hr fuel) fuel (.deferred cl) st st0 (allCl_deferred.2 hcl) h hv
+
 theorem bfsEntries_agree (hf : FrcAgree c pv rootType root frc frc0) (p : Path) :
     ∀ (segs : List PathSeg) (rootV : PVal) (q : List Path) (st st0 : MSt), OK rootV → StRel st st0 →
     Valid c pv rootType root st.memo →
@@ -286,10 +314,10 @@ theorem mRootMut_agree (hr : KeysNodup root) (dfuel : Nat) :
         | fuelOut => exact agree_fuelOut hst hval
         | ok v =>
           simp only
-          have hd := (dfsP (force_agree (c := c) (pv := pv) (rootType := rootType) hr dfuel) dfuel).val v st1 st1'
+          have hd := (dfsP (forceAll_agree (c := c) (pv := pv) (rootType := rootType) hr dfuel) dfuel).val v st1 st1'
             (hgood v rfl) hst hval
-          generalize hM2 : dfsVal (force c altM dfuel) dfuel v st1 = yM at hd ⊢
-          generalize h02 : dfsVal (force c alt0 dfuel) dfuel v st1' = y0 at hd ⊢
+          generalize hM2 : dfsVal (forceAll c altM dfuel) dfuel v st1 = yM at hd ⊢
+          generalize h02 : dfsVal (forceAll c alt0 dfuel) dfuel v st1' = y0 at hd ⊢
           obtain ⟨r2, st2⟩ := yM
           obtain ⟨r2', st2'⟩ := y0
           obtain ⟨hr2, hst2, hval2, hgood2⟩ := hd
@@ -348,7 +376,7 @@ theorem runPlan_agree (c : Ctx) (q : Plan) (hc1 : c.schema = q.schema) (hc2 : c.
     | fuelOut => exact agree_fuelOut hst hval
     | ok fs =>
       simp only
-      have hd := (dfsP (force_agree (c := c) (pv := q.planVars) (rootType := q.rootType) hr fuel) fuel).fields
+      have hd := (dfsP (forceAll_agree (c := c) (pv := q.planVars) (rootType := q.rootType) hr fuel) fuel).fields
         (sortedKeys fs) fs st1 st1' (hgood fs rfl) hst hval
       exact ⟨hd.1, hd.2.1, hd.2.2.1, fun _ _ => trivial⟩
   · simp only [hmut, Bool.false_eq_true, if_false]
@@ -366,10 +394,10 @@ theorem runPlan_agree (c : Ctx) (q : Plan) (hc1 : c.schema = q.schema) (hc2 : c.
     | fuelOut => exact agree_fuelOut hst hval
     | ok fs =>
       simp only
-      have hb := bfsLoop_agree (force_agree (c := c) (pv := q.planVars) (rootType := q.rootType) hr fuel) fuel (.obj fs) [[]]
+      have hb := bfsLoop_agree (forceAll_agree (c := c) (pv := q.planVars) (rootType := q.rootType) hr fuel) fuel (.obj fs) [[]]
         st1 st1' (allCl_obj.2 (hgood fs rfl)) hst hval
-      generalize hM2 : bfsLoop (force c (abstractAlternative c.schema c.frags q.planVars) fuel) fuel (.obj fs) [[]] st1 = yM at hb ⊢
-      generalize h02 : bfsLoop (force c (recompute c.schema c.frags q.planVars) fuel) fuel (.obj fs) [[]] st1' = y0 at hb ⊢
+      generalize hM2 : bfsLoop (forceAll c (abstractAlternative c.schema c.frags q.planVars) fuel) fuel (.obj fs) [[]] st1 = yM at hb ⊢
+      generalize h02 : bfsLoop (forceAll c (recompute c.schema c.frags q.planVars) fuel) fuel (.obj fs) [[]] st1' = y0 at hb ⊢
       obtain ⟨r2, st2⟩ := yM
       obtain ⟨r2', st2'⟩ := y0
       obtain ⟨hr2, hst2, hval2, _⟩ := hb
